@@ -148,6 +148,27 @@ def call_programs(start):
                 gosrc["ext_p%d.go" % pid] = "package main\n\n" + go
                 progs.append(prog)
                 pid += 1
+    # two blocks declaring the SAME short name with different signatures: package _ (unqualified) and a named package (qualified),
+    # in both declaration orders; each call must reach its own function with all its arguments
+    for order in ("own-first", "named-first"):
+        base = "J%d" % pid
+        own = {"name": base, "arity": 1, "ret": {"k": "int", "v": 7}}
+        named = {"name": "ext%d.%s" % (pid, base), "arity": 2, "ret": {"k": "int", "v": 8}}
+        T = lambda i: "p%dk%d" % (pid, i)
+        main = {"stmts": [{"k": "let", "x": "a", "e": {"k": "app", "f": own["name"], "args": [{"k": "probe", "tag": T(0), "e": {"k": "str", "v": "x"}}]}},
+                          {"k": "let", "x": "b", "e": {"k": "app", "f": named["name"], "args": [{"k": "probe", "tag": T(1), "e": {"k": "str", "v": "y"}},
+                                                                                          {"k": "probe", "tag": T(2), "e": {"k": "str", "v": "z"}}]}}],
+                "fin": {"k": "bin", "op": "+", "a": {"k": "var", "x": "a"}, "b": {"k": "var", "x": "b"}}}
+        d_own = "package_info _ =\n  let %s: string->int\n" % base
+        d_named = "package_info ext%d =\n  let %s: string->string->int\n" % (pid, base)
+        prog = {"id": pid, "profile": "fc", "types": [], "funcs": [], "externs": [own, named], "main": main, "mtype": fogen.INT,
+                "meta": {"pkg": "both", "arity": 2, "res": "int", "generic": "", "form": "clash:" + order, "targ": ""},
+                "decl": (d_own + "\n" + d_named) if order == "own-first" else (d_named + "\n" + d_own)}
+        gosrc["ext_p%d.go" % pid] = ("package main\n\nfunc %s(a0 string) int { emitCall(\"call:%s\", a0); return 7 }\n" % (base, base) +
+                                      "var ext%d = struct{ %s func(string, string) int }{ %s: func(a0 string, a1 string) int { emitCall(\"call:ext%d.%s\", a0, a1); return 8 } }\n" % (
+                                          pid, base, base, pid, base))
+        progs.append(prog)
+        pid += 1
     return progs, gosrc
 
 
